@@ -235,6 +235,12 @@ fn in_process(scn: &Scn, ctx: &mut Ctx) -> Result<(), Violation> {
     if scn.huge_budget.is_some() {
         ctx.cov.probe("cycle-budget-beyond-32-bits");
     }
+    if scn.interrupts.len() + scn.resets.len() > 32 {
+        ctx.cov.probe("more-than-32-scheduled-events");
+    }
+    if scn.program.len() > 65_536 {
+        ctx.cov.probe("source-larger-than-64-KiB");
+    }
     if scn.volt_text.iter().any(|(_, t)| t.parse::<f32>().map(|f| !f.is_finite()).unwrap_or(false)) {
         ctx.cov.probe("non-finite-voltage-configured");
     }
@@ -541,6 +547,11 @@ fn sched(rng: &mut Rng, cycles: u32) -> Vec<u64> {
 }
 
 fn sched32(rng: &mut Rng, cycles: u32) -> Vec<u32> {
+    if rng.chance(1, 15) {
+        // a long schedule (dozens of entries, unsorted, with repeats)
+        let n = 33 + rng.below(60);
+        return (0..n).map(|_| rng.below(cycles.max(1) as u64 + 1) as u32 % 200).collect();
+    }
     let n = match rng.below(6) {
         0..=2 => 0,
         3 | 4 => 1 + rng.below(3),
@@ -620,9 +631,33 @@ impl Check for C12 {
         } else {
             program
         };
+        let program = if !broken && rng.chance(1, 60) {
+            // a source file of 70-200 KB: comment lines in front of and behind the code
+            let mut big = String::new();
+            let mut lines = program.lines();
+            if let Some(first) = lines.next() {
+                big.push_str(first);
+                big.push('\n');
+            }
+            let pad = 70_000 + rng.usize(130_000);
+            while big.len() < pad {
+                big.push_str("; padding padding padding padding padding padding padding padding padding\n");
+            }
+            for l in lines {
+                big.push_str(l);
+                big.push('\n');
+            }
+            big
+        } else {
+            program
+        };
         let cfg = gen_cfg(rng);
         let mut scn = Scn { program, cfg, cycles: 0, interrupts: vec![], resets: vec![], expect: None, layer: Layer::InProcess, volt_text: vec![], huge_budget: None };
-        if rng.chance(1, 6) {
+        if rng.chance(1, 4) {
+            if !broken && rng.bool() {
+                // a program that makes the board status (comparators, jumpers, UIO) visible in the outputs
+                scn.program = "#! mrasm\n    LD R0, (0xF1)\n    ST (0xFE), R0\n    LD R1, (0xF3)\n    ST (0xFF), R1\n    STOP\n".to_string();
+            }
             for _ in 0..1 + rng.below(2) {
                 let t = *rng.pick(&["nan", "NaN", "inf", "-inf", "infinity", "1e40", "-1e40", "-0", "5.0000001", "4.9999", "1e-50", "+2.5", ".5", "5.", "2.55", "-nan"]);
                 let w = rng.below(3) as u8;
@@ -648,6 +683,14 @@ impl Check for C12 {
         scn.resets = sched(rng, scn.cycles);
         if rng.chance(1, 5) && !scn.interrupts.is_empty() {
             scn.resets.push(scn.interrupts[0]); // both kinds at the same cycle
+        }
+        if scn.interrupts.len() > 30 {
+            // several collisions spread over a long schedule
+            for k in 0..3 {
+                let c = scn.interrupts[(k * 7) % scn.interrupts.len()];
+                let at = rng.usize(scn.resets.len() + 1);
+                scn.resets.insert(at, c);
+            }
         }
         if rng.chance(1, 14) {
             // budgets beyond 32 bits, for runs that halt on their own under this schedule
